@@ -25,7 +25,8 @@ let show_out = function
 let show_b b = if b then "ok 1" else "ok 0"
 
 (* operands of a form; `detail` = entry through utils::detail::isequal *)
-let operands form args : val * val * bool =
+let operands sc form args =
+  let getL a = List.map (fun z -> Z.mul sc z) (getL a) in
   match form, args with
   | "nn", [a; b] -> (num a, num b, false)
   | ("ii" | "dii"), [ka; kb; a; b] ->
@@ -48,29 +49,34 @@ let operands form args : val * val * bool =
       (mk a b, mk c d, false)
   | _ -> failwith ("form " ^ form)
 
+(* two nested std::arrays are both "packed" for the public entry: different static shapes do not compile *)
+let static_reject form args = match form, args with
+  | "aa", [ka; kb; a; b] -> getS ka = "fix" && getS kb = "fix" && fst (getA a) <> fst (getA b)
+  | _ -> false
+
 let rec drop_last = function [] -> [] | [_] -> [] | x :: t -> x :: drop_last t
 let rec last = function [x] -> x | _ :: t -> last t | [] -> failwith "last"
 
 let both_builds nd dbg = if nd = dbg then show_out nd else "ndebug:" ^ show_out nd ^ " debug:" ^ show_out dbg
 
 let eq_handler form args =
-  let (x, y, detail) = operands form args in
+  let (x, y, detail) = operands (z_of_int 1) form args in
   let run nd = if detail then isequal_d nd x y else isequal nd x y in
   let nd = run true and dbg = run false in
-  let rej = (nd = Reject) in
+  let rej = (nd = Reject) || static_reject form args in
   { model = both_builds nd dbg;
     spec = if rej then "unsupported" else show_b (spec_equal x y);
-    dom = wfb x && wfb y && not rej }
+    dom = wfb x && wfb y && pair_dom x y && not rej }
 
 let cl_handler form args =
   let eps = getI (last args) in
-  let (x, y, _) = operands form (drop_last args) in
+  let (x, y, _) = operands (z_of_int 4) form (drop_last args) in
   let nd = isclose true eps x y and dbg = isclose false eps x y in
-  let rej = (nd = Reject) in
-  let oke = Z.eqb eps default_eps || (noeither x && noeither y) in
+  let rej = (nd = Reject) || static_reject form (drop_last args) in
+  let oke = (noeither x && noeither y) || (Z.eqb eps default_eps && notup x && notup y) in
   { model = both_builds nd dbg;
     spec = if rej then "unsupported" else show_b (spec_close eps x y);
-    dom = wfb x && wfb y && oke && (match dbg with Ret _ -> true | _ -> false) }
+    dom = wfb x && wfb y && oke && not rej && (match dbg with Ret _ -> true | _ -> false) }
 
 let () =
   List.iter (fun f -> register ("eq_" ^ f) (eq_handler f); register ("cl_" ^ f) (cl_handler f))
